@@ -65,6 +65,9 @@ const (
 	viaNewSuite = "NewSuite"       // NewSuite(cfg)
 	viaBare     = "SuiteConfig"    // the bare configuration value used as a Suite
 	viaRawValue = "RawSuite-value" // RawSuite{cfg} literal
+	// a RawSuite obtained from a constructor (NewRawSuite of an advertised name / NewSuite) whose exported
+	// configuration is then overwritten by the caller with the target configuration: still a hand-built configuration
+	viaEdited = "constructed-then-edited"
 )
 
 func makeSuite(via string, s ref.Suite) (suite otp.Suite, err error, pan any) {
@@ -80,6 +83,23 @@ func makeSuite(via string, s ref.Suite) (suite otp.Suite, err error, pan any) {
 		suite, err = otp.NewSuite(toCfg(s))
 	case viaRawValue:
 		suite = otp.RawSuite{SuiteConfig: toCfg(s)}
+	case viaEdited:
+		var base otp.Suite
+		names := liveNames()
+		if len(names) > 0 && len(s.Raw)%2 == 0 {
+			base, err = otp.NewRawSuite(names[(len(s.Raw)+s.Digits+s.Hash)%len(names)])
+		} else {
+			base, err = otp.NewSuite(otp.SuiteConfig{Raw: "seed", Hash: otp.SHA512, Digits: 9, IncludeCounter: true})
+		}
+		if err != nil {
+			return nil, err, nil
+		}
+		rs, ok := base.(otp.RawSuite)
+		if !ok {
+			return toCfg(s), nil, nil // the constructor no longer returns a RawSuite value: fall back to the bare configuration
+		}
+		rs.SuiteConfig = toCfg(s)
+		suite, err = rs, nil
 	default:
 		suite = toCfg(s)
 	}
@@ -358,11 +378,11 @@ func c05Cases(c *Ctx, emit func(ocraCase)) {
 	}
 	// hand-built configurations through the three construction routes
 	raws := []string{"", "OCRA-1:HOTP-SHA1-6:QN08", strings.Repeat("suite-text ", 28)}
-	vias := []string{viaNewSuite, viaBare, viaRawValue}
+	vias := []string{viaNewSuite, viaBare, viaRawValue, viaEdited}
 	for i, s := range handBuiltSuites(rng, raws) {
 		for v := 0; v < c.N(6, 60); v++ {
 			kh, sec := secretFor()
-			emitWithVariants(ocraCase{KeyHex: kh, Secret: sec, Via: vias[(i+v)%3], Suite: s, Input: inputToJ(admissibleInput(rng, s, i+v*7))})
+			emitWithVariants(ocraCase{KeyHex: kh, Secret: sec, Via: vias[(i+v)%4], Suite: s, Input: inputToJ(admissibleInput(rng, s, i+v*7))})
 		}
 	}
 }
